@@ -64,14 +64,30 @@ def run(ctx):
                     if ps0[:1] == ['self']:
                         continue
                     c0 = CFG(f0.node)
-                    pn = {n.id for n in c0.nodes if any(isinstance(x, ast.Call) and call_name(x) in parsers for x in subnodes(c0, n))}
+
+                    def parses(x):
+                        if not isinstance(x, ast.Call):
+                            return False
+                        if call_name(x) in parsers:
+                            return True
+                        # (parse_match_case if is_match_case else parse_ExceptHandler)(...)
+                        return isinstance(x.func, ast.IfExp) and all(isinstance(b, ast.Name) and b.id in parsers for b in (x.func.body, x.func.orelse))
+                    pn = {n.id for n in c0.nodes if any(parses(x) for x in subnodes(c0, n))}
                     if pn and c0.exit not in c0.reachable(c0.entry, lambda n, lab, s: lab != 'exc' and n.id not in pn):
                         parsers.add(q0)
                         changed = True
         ctx.extra['parser_wrappers'] = sorted(parsers - set(PARSERS))
-        for q in RAW_FUNCS:
-            for fi in ctx.repo.funcs('fst_raw', q):
-                flow = Flow(ef, fi, 'self', {})
+        # the raw functions, plus the parser wrappers that are handed the node to reparse (first parameter annotated as a tree node):
+        # inside them the same order has to hold
+        targets = [(q, fi, 'self') for q in RAW_FUNCS for fi in ctx.repo.funcs('fst_raw', q)]
+        for q0 in sorted(parsers - set(PARSERS)):
+            for fi in ctx.repo.mod('fst_raw').func(q0):
+                a0 = (fi.node.args.posonlyargs + fi.node.args.args)[:1]
+                if a0 and a0[0].annotation is not None and norm(a0[0].annotation).strip("'") in ('fst.FST', 'FST'):
+                    targets.append((q0, fi, a0[0].arg))
+        for q, fi, tree_param in targets:
+            if True:
+                flow = Flow(ef, fi, tree_param, {})
                 cfg = flow.cfg
                 # a local that only ever names a parser: `parse_stmtlike = parse_match_case if is_match_case else parse_ExceptHandler`
                 def names_parser(e):
@@ -107,7 +123,7 @@ def run(ctx):
                     if node.kind not in ('stmt', 'test', 'iter', 'with', 'case') or not flow.states(node.id):
                         continue
                     clean = [{k: v for k, v in d.items() if k[:1] != '$'} for d in flow.states(node.id)]
-                    hits = ef.node_mutates(fi, cfg, node, 'self', clean)
+                    hits = ef.node_mutates(fi, cfg, node, tree_param, clean)
                     if not hits:
                         continue
                     n_mut += 1
@@ -116,9 +132,9 @@ def run(ctx):
                               'this modification of the target tree is reachable without a preceding successful parse of the new '
                               'text: invalid text would leave source and tree changed', getattr(hits[0], 'lineno', node.lineno),
                               sample={'function': fi.qualname, 'mutation': norm(hits[0], 70)})
-                if n_mut == 0 and q != '_reparse_raw':
+                if n_mut == 0 and q != '_reparse_raw' and q in RAW_FUNCS:
                     raise AnalysisError(f'{fi.key}: no target mutation found')
-                findings, n = c12.analyse_function(ctx, ef, fi, 'self', {})
+                findings, n = c12.analyse_function(ctx, ef, fi, tree_param, {})
                 if not findings:
                     ctx.ok('R10.2', f'{fi.module}|{fi.qualname}', sample={'function': fi.key, 'nodes_after_mutation': n})
                 seen = set()
